@@ -31,7 +31,7 @@ flags.DEFINE_bool("bitmaps", False, "True if bitmaps should be included in glyph
 def main(argv):
     input_files = util.expand_ninja_response_files(argv[1:])
     del argv
-    source_font = util.only(input_files, lambda a: a.endswith(".ttf"))
+    source_font = util.only(input_files, lambda a: a.endswith((".ttf", ".otf")))
 
     glyph_order = ttLib.TTFont(source_font).getGlyphOrder()
 
